@@ -14,3 +14,6 @@ import RdfModel.Props.C07Doc
 #print axioms RdfModel.C08.finding_pname_prefix_space
 #print axioms RdfModel.C07.gen_tables_eq
 #print axioms RdfModel.C07.ttl_sub_trig_grammatical_partial
+#print axioms RdfModel.C07.nt_encoder_sub_ttl_partial
+#print axioms RdfModel.C07.nt_encoder_agree_partial
+#print axioms RdfModel.C07.nt_encoder_sub_ttl_real
